@@ -788,7 +788,7 @@ def run(tier, seed, replay=None):
         rep.cov["injection_cases"] = len(inj)
         tick("inject")
         # (3) random histories, every protocol; (4) the other protocol checks' own generators
-        rnd = [gen_random_case(rng) for _ in range(700 if quick else 12000)]
+        rnd = [gen_random_case(rng) for _ in range(700 if quick else 25000)]
         ledger_run(rep, impl, model, rnd, "random", stats)
         tick("random")
         gens = borrowed_generators(rng)
@@ -807,7 +807,7 @@ def run(tier, seed, replay=None):
         tick("borrowed")
         # (5) programs over real transports + devices: allocator balance
         transports = ["inproc", "ipc", "tcp"]
-        plain = [gen_program(rng, transports) for _ in range(150 if quick else 5000)]
+        plain = [gen_program(rng, transports) for _ in range(150 if quick else 6500)]
         devs = [gen_device_program(rng, ["inproc", "ipc"]) for _ in range(24 if quick else 1500)]
         devs += [gen_device_stress(rng, k) for k in range(18 if quick else 1200)]
         balance_run(rep, impl, plain, stats)
